@@ -415,6 +415,9 @@ func (e *Engine) step(p *partition, row map[string]any, ts, seq int64) []map[str
 		emitted = e.emitLazy(p, completions, &survivors)
 	} else {
 		e.ingestPending(p, completions)
+		// 已可接受但仍可延伸的 run（如 A+ 的首个 A、A (B C)? 的 A）同样是候选匹配：其后继可能
+		// 不再到达接受态就死亡、或被 WITHIN/行数上限丢弃，此时已接受的前缀才是该起点的最长匹配。
+		e.ingestPending(p, acceptingRuns(survivors))
 		emitted = e.emitGreedy(p, &survivors)
 	}
 	// 4. 数量上限：活跃部分匹配过多时丢弃最旧的，防 A* 类模式状态爆炸。
@@ -425,6 +428,17 @@ func (e *Engine) step(p *partition, row map[string]any, ts, seq int64) []map[str
 	e.capPending(p) // pending key 数上限：防贪婪延迟期无界累积
 	p.runs = survivors
 	return emitted
+}
+
+// acceptingRuns 返回状态集含接受态的 run（贪婪：已接受前缀入 pending，仍保留在 survivors 继续延伸）。
+func acceptingRuns(runs []*run) []*run {
+	var out []*run
+	for _, r := range runs {
+		if hasAccept(r.states) {
+			out = append(out, r)
+		}
+	}
+	return out
 }
 
 // advance 测试 row 能否被 run 当前闭包里的各 match-state 消费，返回全部后继 run（非确定性）。
